@@ -200,6 +200,13 @@ func (g *dgen) bodyType(depth int) *spec.Attr {
 			key = &spec.Attr{Type: &spec.Type{Kind: spec.Int}}
 			g.feat("type:map-int-key")
 		}
+		if key.Val = g.validation(key.Type.Kind, LocBody); key.Val != nil {
+			if key.Val.Format != "" || len(key.Val.Enum) > 0 {
+				key.Val = nil // (formats are judged by construction of the value, enums leave too few distinct keys)
+			} else {
+				g.feat("val:map-key")
+			}
+		}
 		el := g.bodyType(depth - 1)
 		if el.Type.Kind == spec.Object {
 			el = g.prim(LocBody)
@@ -1413,6 +1420,9 @@ func MatrixDesign(name string) *spec.Design {
 		ut("MxValidated", req(withVal(prim("n", spec.Int), &spec.Validation{Min: fp(1), Max: fp(9)})),
 			withVal(prim("s", spec.String), &spec.Validation{Pattern: designPatterns[0]}), withVal(prim("e", spec.String), &spec.Validation{Enum: []any{"red", "green"}})),
 		ut("MxDefaulted", withDef(prim("d", spec.Int), float64(5)), withDef(prim("t", spec.String), "x"), req(prim("r", spec.Float64))),
+		// a type whose ONLY constraints sit on the keys of a map it holds
+		ut("MxKeyOnly", prim("note", spec.String), &spec.Attr{Name: "tags", Type: &spec.Type{Kind: spec.Map, Elem: &spec.Attr{Type: &spec.Type{Kind: spec.Int}},
+			Key: &spec.Attr{Type: &spec.Type{Kind: spec.String}, Val: &spec.Validation{Pattern: designPatterns[1], MaxLength: ip(12)}}}}),
 	}
 	svc := &spec.Service{Name: "matrix"}
 	for i, u := range flavours {
@@ -1428,9 +1438,9 @@ func MatrixDesign(name string) *spec.Design {
 			}
 			return fs
 		}
-		m := &spec.Method{Name: []string{"req_only", "validated", "defaulted"}[i], Params: map[string]string{}, Headers: map[string]string{}, Cookies: map[string]string{},
+		m := &spec.Method{Name: []string{"req_only", "validated", "defaulted", "key_only"}[i], Params: map[string]string{}, Headers: map[string]string{}, Cookies: map[string]string{},
 			Payload: &spec.Attr{Type: &spec.Type{Kind: spec.Object, Fields: fields()}}, Result: &spec.Attr{Type: &spec.Type{Kind: spec.Object, Fields: fields()}},
-			Routes: []*spec.Route{{Verb: "POST", Path: "/matrix/" + []string{"req_only", "validated", "defaulted"}[i]}}, Responses: []*spec.Response{{Status: 200, Headers: map[string]string{}, Cookies: map[string]string{}}}}
+			Routes: []*spec.Route{{Verb: "POST", Path: "/matrix/" + []string{"req_only", "validated", "defaulted", "key_only"}[i]}}, Responses: []*spec.Response{{Status: 200, Headers: map[string]string{}, Cookies: map[string]string{}}}}
 		svc.Methods = append(svc.Methods, m)
 	}
 	d.Services = []*spec.Service{svc}
